@@ -50,8 +50,9 @@ int main(int argc, char *argv[]) {
       hexsim::Processor processor(std::cin, std::cout, maxCycles);
       processor.setTracing(trace);
       processor.load("a.bin");
-      processor.run();
+      return processor.run();
     }
+    return 1;
   } catch (const std::exception &e) {
     std::cerr << boost::format("Error: %s\n") % e.what();
     return 1;
